@@ -171,6 +171,15 @@ Definition guard_F1 (cr : cred) : bool :=
   | _ => false
   end.
 
+(** C05-F2 (repaired by f16c3cc): an `nbf` or `iat` claim beyond int64 wrapped around to "not set" *)
+Definition guard_F2 (cr : cred) : bool :=
+  match cr with
+  | CToken t =>
+    match c_nbf (t_claims t) with Some n => (int64_max <? n)%Z | None => false end ||
+    match c_iat (t_claims t) with Some i => (int64_max <? i)%Z | None => false end
+  | _ => false
+  end.
+
 (** C05-F3 (open; what a3a89b7 leaves of C05-F1, "is set" now being tested with IsZero()): an `exp` that is
     exactly the Unix time of Go's zero time.Time (1 January of year 1, -62135596800) still counts as absent *)
 Definition guard_F3 (cr : cred) : bool :=
@@ -190,15 +199,6 @@ Definition guard_F5 (cf : config) (cr : cred) : bool :=
 
 (** the findings that are open in the code as it is *)
 Definition open_guards (cf : config) (cr : cred) : bool := guard_F3 cr.
-
-(** C05-F2 (repaired by f16c3cc): an `nbf` or `iat` claim beyond int64 wrapped around to "not set" *)
-Definition guard_F2 (cr : cred) : bool :=
-  match cr with
-  | CToken t =>
-    match c_nbf (t_claims t) with Some n => (int64_max <? n)%Z | None => false end ||
-    match c_iat (t_claims t) with Some i => (int64_max <? i)%Z | None => false end
-  | _ => false
-  end.
 
 (** the clock is not before 1970 (by more than a negative leeway) nor beyond what time.Time can hold *)
 Definition sane_clock (cf : config) (now : Z) : Prop :=
